@@ -100,7 +100,7 @@ ActionSubContextNames = { TRANSIT : 'transit'}
 #regular expression objects to quickly determine if string is valid python identifier
 #Usage: REO_Identifier.match('Hello') returns match object if match otherwise None
 REO_Identifier = re.compile(r'^[a-zA-Z_]\w*$') #valid python identifier
-REO_IdentPub = re.compile(r'^[a-zA-Z]\w*$') #valid python public identifier ie no leading underscore
+REO_IdentPub = re.compile(r'^[a-zA-Z]\w*\Z') #valid python public identifier ie no leading underscore
 
 # regex objects to determine if string is valid store path
 # to use
